@@ -8,6 +8,7 @@ Big == Str("123456789012345678901234567890")
 Vals == {Nil, Bool(TRUE), IntV(0), IntV(-1), IntV(-5), IntV(1000000), Str(""), Str("abc"), Str("-3"), Str("1e400"),
          Str("inf"), Str("nan"), Str("50%"), Str("%s %d"), Big, Arr(<<>>), Arr(<<IntV(1), Str("a"), Nil>>),
          Arr(<<Arr(<<Arr(<<Arr(<<Arr(<<Arr(<<IntV(1)>>)>>)>>)>>)>>)>>),
+         Arr(<<Arr(<<IntV(1), IntV(2)>>), Arr(<<IntV(3)>>), IntV(5)>>),       \* rows first: what a flattening filter must not write into
          Hash(<< <<"a", IntV(1)>> >>), Arr(<<Hash(<< <<"a", IntV(1)>> >>), Hash(<< <<"b", Str("x")>> >>), IntV(3)>>), Range(1, 3),
          Flt("nan"), Flt("inf"), Flt("-inf"), Flt("1.5"), Flt("-0.0"), Flt("1e308"), BigInt("123456789012345678901234567890"),
          BigInt("-9223372036854775809"), Arr(<<Flt("nan"), IntV(1), Str("a")>>),
